@@ -84,6 +84,8 @@ unique_ptr<DiscreteDistributionInterface> BppODiscreteDistributionFormat::readDi
     StringTokenizer strtok(rf.substr(1, rf.length() - 2), ",");
     while (strtok.hasMoreToken())
       values.push_back(TextTools::toDouble(strtok.nextToken()));
+    if (values.empty())
+      throw Exception("Empty argument 'values' in Simple distribution: " + rf);
 
     rf = args["probas"];
     if (rf.length() < 2)
